@@ -120,34 +120,28 @@ def _duration_isoformat(dt: datetime.timedelta) -> str:
     if dt < datetime.timedelta(0):
         # A negative duration is written as the negated positive one (ISO 8601-2 sign prefix).
         return f"-{_duration_isoformat(-dt)}"
-    dur: pendulum.Duration = (
-        dt
-        if isinstance(dt, pendulum.Duration)
-        else pendulum.duration(
-            days=dt.days,
-            seconds=dt.seconds,
-            microseconds=dt.microseconds,
-        )
+    # Integer arithmetic on the timedelta's own fields: converting to a `pendulum.Duration`
+    #   goes through floating-point seconds and loses microseconds on long durations.
+    years, months = (
+        (dt.years, dt.months) if isinstance(dt, pendulum.Duration) else (0, 0)
     )
+    days = (
+        dt.weeks * 7 + dt.remaining_days
+        if isinstance(dt, pendulum.Duration)
+        else dt.days
+    )
+    hours, remainder = divmod(dt.seconds, 3600)
+    minutes, seconds = divmod(remainder, 60)
     datepart = "".join(
-        f"{p}{s}"
-        for p, s in (
-            (dur.years, "Y"),
-            (dur.months, "M"),
-            # `remaining_days` excludes whole weeks, which have no designator of their own here.
-            (dur.weeks * 7 + dur.remaining_days, "D"),
-        )
-        if p
+        f"{p}{s}" for p, s in ((years, "Y"), (months, "M"), (days, "D")) if p
     )
     timepart = "".join(
         f"{p}{s}"
         for p, s in (
-            (dur.hours, "H"),
-            (dur.minutes, "M"),
+            (hours, "H"),
+            (minutes, "M"),
             (
-                f"{dur.remaining_seconds}.{dur.microseconds:06}"
-                if dur.microseconds
-                else dur.remaining_seconds,
+                f"{seconds}.{dt.microseconds:06}" if dt.microseconds else seconds,
                 "S",
             ),
         )
